@@ -112,6 +112,7 @@ theorem phase_step (s s' : St) (e : Ev) (m : M6o) (hG : G6 s) (hP : Phase s m) (
   | probe j c => exact ⟨m, rfl, phase_other s s' _ m hG hP hs rfl (by simp)⟩
   | nilnext k => exact ⟨m, rfl, phase_other s s' _ m hG hP hs rfl (by simp)⟩
   | cancelroot => exact ⟨_, rfl, phase_cancelroot s s' m hG hP hs⟩
+  | boff k b => exact ⟨m, rfl, phase_other s s' _ m hG hP hs rfl (by simp)⟩
 
 /-- the simulation relation between the model and `monC06o` -/
 def Sim6 (s : St) (m : M6o) : Prop := G6 s ∧ Phase s m
